@@ -28,7 +28,7 @@ var claims = map[string][]string{
 	"C11":      {"renamed-from-mismatch"},
 	"C12":      {"kernel-mark-orphan", "kernel-mark-missing", "table-size", "foreign-watch"},
 	"C13":      {"fd-leak", "task-leak", "foreign-watch"},
-	"C14":      {"cap-mismatch", "stream-divergence", "lost-event", "phantom-event", "order", "foreign-watch"},
+	"C14":      {"cap-mismatch", "stream-divergence", "lost-event", "phantom-event", "order", "foreign-watch", "absorb-failed"},
 	"C17":      {"kq-fd-leak", "kq-table-leak", "kq-internal-path-listed", "task-leak", "panic", "deadlock"},
 	"C18":      {"kq-event-mismatch", "kq-duplicate-create", "kq-missing-create", "panic"},
 	"KQSCRIPT": {"script-mismatch", "panic", "deadlock"},
@@ -72,6 +72,9 @@ func generate(prop, tier string, seed uint64, run int) *Scenario {
 	case "C06":
 		return genClose(prop, seed, run, tier)
 	case "C13":
+		if pick < 20 {
+			return genChurn(prop, seed, run, tier, tier == "thorough" && pick < 1)
+		}
 		return genClose(prop, seed, run, tier)
 	case "C07":
 		return genConc(prop, seed, run, tier)
